@@ -146,6 +146,16 @@ def wf_problems(sf, gf):
         for a in FindNodes((ir.TypeDef, ir.Interface)).visit(r.ir):
             live.add(id(a))
         declared = {str(v.name).lower() for v in r.variables}
+        # declarations: no name declared twice, INTENT only on dummy arguments
+        from collections import Counter as _Counter
+        dsyms = [sy for d in FindNodes(ir.VariableDeclaration).visit(r.spec) for sy in d.symbols]
+        for nme, cnt in _Counter(str(sy.name).lower() for sy in dsyms).items():
+            if cnt > 1:
+                probs.append(('duplicate-declaration', f'{r.name}: {nme} is declared {cnt} times'))
+        dummies = {str(a).lower() for a in r._dummies}
+        for sy in dsyms:
+            if getattr(sy.type, 'intent', None) and str(sy.name).lower() not in dummies:
+                probs.append(('intent-on-local', f'{r.name}: {sy.name} is declared with INTENT but is not a dummy argument'))
         imported = set()
         bare = False
         sc = r
@@ -213,8 +223,102 @@ def wf_problems(sf, gf):
 
 # ---- classifier (mirrors of Lean Known… predicates / decidable text predicates)
 
+def _dummy_spelled_differently(src):
+    """some dummy argument of a routine of the source is spelled in two different letter cases"""
+    dummies = set()
+    for m in re.finditer(r'^\s*subroutine\s+\w+\s*\(([^)]*)\)', src, re.M | re.I):
+        dummies |= {a.strip().lower() for a in m.group(1).split(',') if a.strip()}
+    spell = {}
+    for line in src.splitlines():
+        for w in re.findall(r'[A-Za-z_]\w*', line.split('!')[0]):
+            spell.setdefault(w.lower(), set()).add(w)
+    return any(len(spell.get(d, ())) > 1 for d in dummies)
+
+
+def _fission_array_used_outside(src):
+    """an array assigned inside a DO loop that holds a `!$loki loop-fission` pragma is also referenced outside that loop
+    (the emitted text is indented consistently, so a loop ends at the first `end do` with the indentation of its `do`)"""
+    lines = src.splitlines()
+    low = [l.lower() for l in lines]
+    for k, l in enumerate(low):
+        st = l.strip()
+        if not (st.startswith('do ') and not st.startswith('do while')):
+            continue
+        ind = len(l) - len(l.lstrip())
+        end = next((j for j in range(k + 1, len(low)) if low[j].strip().replace(' ', '') == 'enddo' and
+                    len(low[j]) - len(low[j].lstrip()) == ind), None)
+        if end is None or not any('!$loki loop-fission' in x for x in low[k + 1:end]):
+            continue
+        assigned = {m.group(1) for x in low[k + 1:end] for m in [re.match(r'\s*(\w+)\s*\(.*\)\s*=[^=]', x)] if m}
+        outside = [x.split('!')[0] for x in low[:k] + low[end + 1:] if '::' not in x]
+        if any(re.search(r'\b' + re.escape(a) + r'\b', x) for a in assigned for x in outside):
+            return True
+    return False
+
+
+_STRIDE = re.compile(r'\w\s*\([^()]*:[^(),]*:[^()]*\)')
+
+
+def _callee_units(src):
+    """[(dummy names, lines)] of every routine of the source but the first"""
+    units, cur = [], None
+    for line in src.splitlines():
+        m = re.match(r'^\s*subroutine\s+\w+\s*\(([^)]*)\)', line, re.I)
+        if m:
+            cur = ({a.strip().lower() for a in m.group(1).split(',') if a.strip()}, [])
+            units.append(cur)
+        elif cur is not None:
+            cur[1].append(line.split('!')[0].lower())
+    return units[1:]
+
+
+def _callee_print_mentions_dummy(src):
+    """a PRINT statement of a routine other than the first mentions one of that routine's dummy arguments"""
+    for dummies, lines in _callee_units(src):
+        for l in lines:
+            if l.strip().startswith('print') and any(re.search(r'\b' + re.escape(d) + r'\b', l) for d in dummies):
+                return True
+    return False
+
+
+def _callee_section_with_stride(src):
+    """a routine other than the first contains an array section with a stride"""
+    return any(_STRIDE.search(l) for _, lines in _callee_units(src) for l in lines if '::' not in l)
+
+
+# open classes whose inputs are generated only once the class is listed: (class, applies to transformation, predicate on the source)
+GATES = [
+    ('loop-fission-promotes-outside-uses', lambda t: t == 'loop_fission', lambda src: _fission_array_used_outside(src)),
+    ('inline-print-unsubstituted', lambda t: t.startswith('inline_'), lambda src: _callee_print_mentions_dummy(src)),
+    ('inline-section-drops-stride', lambda t: t.startswith('inline_'), lambda src: _callee_section_with_stride(src)),
+]
+
+
+def gated(tname, src):
+    return any(ap(tname) and not class_listed(cls) and pred(src) for cls, ap, pred in GATES)
+
+
+def class_listed(cls):
+    """the class is listed (any status) in the known-findings file in use"""
+    from ..core import load_known
+    try:
+        return any(k.get('property') == 'C41' and k.get('class') == cls for k in load_known())
+    except Exception:
+        return False
+
+
 def classify(tname, src, probs):
     low = src.lower()
+    if tname == 'loop_fission' and probs[0][0] in ('reparse', 'gfortran') and _fission_array_used_outside(src):
+        return 'loop-fission-promotes-outside-uses'
+    if tname.startswith('inline_') and probs[0][0] in ('undeclared', 'gfortran') and _callee_print_mentions_dummy(src) and \
+            ('implicit type' in probs[0][1].lower() or probs[0][0] == 'undeclared'):
+        return 'inline-print-unsubstituted'
+    if tname.startswith('inline_') and probs[0][0] in ('reparse', 'gfortran') and _callee_section_with_stride(src) and \
+            ('shape' in probs[0][1].lower() or 'conformable' in probs[0][1].lower()):
+        return 'inline-section-drops-stride'
+    if tname.startswith('inline_') and probs[0][0] in ('scope', 'undeclared', 'reparse', 'gfortran') and _dummy_spelled_differently(src):
+        return 'inline-dummy-case-mismatch'
     if tname == 'remove_unused_vars(all)' and probs[0][0] in ('undeclared', 'gfortran') and re.search(r'^\s*do\s+\w+\s*=', low, re.M):
         return 'remove-unused-vars-loop-variable'
     if tname.startswith('resolve_vector_notation') and probs[0][0] in ('reparse', 'gfortran') and \
@@ -315,6 +419,8 @@ def wf_py(prog):
 
 
 CORPUS_NOTE = 'hand-written witnesses live in corpus/C41/*.sexp'
+RECASE_SHARE = 0.4
+INLINE_CFG = dict(max_stmts=8, n_callees=(1, 2), callee_stmts=5, weights={'call': 30, 'assign_section': 8, 'if': 8, 'do': 10})
 GEN_CFG = dict(max_stmts=8, n_callees=(0, 1), callee_stmts=5, weights={'assoc': 8, 'assign_section': 12, 'if': 10, 'select': 4, 'call': 10, 'do': 16,
                                                          'pragma': 3})
 
@@ -334,6 +440,9 @@ def decode(req):
             if h(u) != 'unit' or len(u) != 5 or not all(isinstance(x, list) for x in u[2:]):
                 raise ValueError('malformed unit')
         return 'wf', norm, 'gf', prog
+    if k == 'impm':
+        kind, norm, src, extra = c40.decode([A('imp')] + list(req[1:]))
+        return 'impm', extra, 'gf', src
     if k == 'bare':
         if len(req) != 3 or not all(isinstance(x, list) for x in req[1:]):
             raise ValueError('malformed request')
@@ -353,7 +462,8 @@ class C41(Prop):
     props_module = 'LokiModel.Props.C41'
     findings_module = 'LokiModel.Findings.C41'
     driver = 'Drivers/C41.lean'
-    theorems = ['lower_wf', 'lower_wf_eq', 'deadcode_wf', 'sanitise_imports_keeps', 'sanitise_imports_bare']
+    theorems = ['lower_wf', 'lower_wf_eq', 'deadcode_wf', 'sanitise_imports_keeps', 'sanitise_imports_bare', 'sanitise_routine_keeps',
+                'sanitise_routine_bare']
     design_ref = 'DESIGN.md 4.F C41'
     level = 'proof'
     level_text = ('Proved at full strength about the models: lower_wf / lower_wf_eq (convert_to_lower_case keeps wf, in fact does not change '
@@ -374,16 +484,36 @@ class C41(Prop):
     extra_obligations = ['oracle: scope chains, declared-or-imported, re-parse and gfortran syntax check after every registered transformation']
 
     def classes(self):
-        return ['remove-unused-vars-loop-variable', 'vector-notation-half-open-range', 'normalize-shape-drops-stride', 'merge-associates-detached-scope', 'loop-unroll-exit-cycle', 'inline-offset-on-bare-range']
+        return ['remove-unused-vars-loop-variable', 'vector-notation-half-open-range', 'normalize-shape-drops-stride', 'merge-associates-detached-scope', 'loop-unroll-exit-cycle', 'inline-offset-on-bare-range', 'inline-dummy-case-mismatch', 'loop-fission-promotes-outside-uses', 'inline-print-unsubstituted', 'inline-section-drops-stride']
 
     def gen(self, rng, tier):
         rounds = {'quick': 1, 'thorough': 8, 'search': 3}.get(tier, 1)
         gf_every = {'quick': 6, 'thorough': 1, 'search': 2}.get(tier, 6)
         k = 0
         for _ in range(rounds):
-            for tname in REGISTRY:
-                prog = fir.gen_program(rng, GEN_CFG)
-                src = decorate(fir.emit_fortran(prog, wrap_program=False), tname, rng)
+            for tname in list(REGISTRY) + ['inline_marked_subroutines'] * 3:
+                def build():
+                    prog = fir.gen_program(rng, INLINE_CFG if tname.startswith('inline_') else GEN_CFG)
+                    if tname.startswith('inline_') and rng.random() < 0.7:
+                        prog = c40.rename_callee_names(prog)       # callee names differ from every caller name
+                    src = decorate(fir.emit_fortran(prog, wrap_program=False), tname, rng)
+                    # Fortran is case-insensitive: every transformation must cope with any spelling
+                    if tname.startswith('inline_'):
+                        if rng.random() < 0.8:
+                            # a definition spelled differently from a use is the open class inline-dummy-case-mismatch: generated
+                            # only once it is listed; until then one spelling per identifier (still not the lower-case one)
+                            src = c40.recase_text(src, rng, p=0.6) if class_listed('inline-dummy-case-mismatch') and rng.random() < 0.5 \
+                                else c40.recase_text_consistent(src, rng)
+                    elif tname != 'convert_to_lower_case' and rng.random() < RECASE_SHARE:
+                        src = c40.recase_text(src, rng, p=0.6)
+                    return src
+                src = build()
+                for _ in range(12):
+                    # inputs inside an open class that is not listed yet are not generated (the clean tree must stay quiet)
+                    if gated(tname, src):
+                        src = build()
+                    else:
+                        break
                 k += 1
                 yield Case([A('t'), tname, A('gf' if k % gf_every == 0 else 'nogf'), src], stream='t:' + tname.split('(')[0])
             for norm in ('lower', 'deadns'):
@@ -394,6 +524,9 @@ class C41(Prop):
             for _ in range(3):
                 req, nt = c40.gen_imp_req(rng)
                 yield Case([A('bare'), req[1], req[2]], stream='bare', nontrivial=nt)
+            for _ in range(3):
+                req, nt = c40.gen_imp_req(rng, member_only=True)
+                yield Case([A('impm')] + req[1:], stream='impm', nontrivial=nt)
 
     def impl(self, req):
         kind, a, flag, b = decode(req)
@@ -406,6 +539,8 @@ class C41(Prop):
             except Exception:
                 return [A('wf'), w0, A('raised')]
             return [A('wf'), w0, wf_py(fir.export_unit(sf, main=fir.prog_main(b)))]
+        if kind == 'impm':
+            return c40.PROP.impl([A('imp')] + list(req[1:]))
         if kind == 'bare':
             # real code: is a USE without ONLY list dropped?  (the abstract request is printed as a routine)
             src = c40.imp_source(a, b, [])
@@ -422,7 +557,9 @@ class C41(Prop):
         kind, a, flag, b = decode(req)
         if kind == 'wf':
             return []
-        if kind == 'bare':
+        if kind == 'impm':
+            tname, src = 'sanitise_imports', b
+        elif kind == 'bare':
             tname, src = 'sanitise_imports', c40.imp_source(a, b, [])
         else:
             tname, src = a, b
@@ -437,7 +574,7 @@ class C41(Prop):
         except Exception as e:
             stats[f'raised:{tname}:{type(e).__name__}'] += 1
             return []
-        probs = wf_problems(sf, flag == 'gf' or kind == 'bare')
+        probs = wf_problems(sf, flag == 'gf' or kind in ('bare', 'impm'))
         stats['applied:' + tname] += 1
         try:
             if fgen(sf.ir) != t0:
